@@ -4,6 +4,6 @@ CONSTANTS V = 0
           MaxCap = 1
           MaxMsgs = 3
           MaxOps = 1
-          Hops = {1}
+          Hops = {"h1"}
 ACTION_CONSTRAINT ExportEdge
 VIEW View
